@@ -1,6 +1,11 @@
 package main
 
 import (
+	"encoding/json"
+	"fmt"
+	"go/types"
+	"os"
+
 	"gosym/interp"
 	"gosym/smt"
 )
@@ -25,4 +30,51 @@ func (r *Run) concreteRun(hr *HarnessResult, values map[string]string) *interp.P
 	cfg.WantWitness = false
 	sess := smt.NewSession(r.confProc, smt.NewCtx(), cfg.TimeoutMS)
 	return interp.RunPath(&cfg, sess, nil)
+}
+
+// ConcreteOnly runs one harness in the engine with the concrete inputs of a replay file and
+// prints what happened (development aid; also the interpreter-side replay of counterexamples).
+func (r *Run) ConcreteOnly(path string) int {
+	data, err := os.ReadFile(path)
+	if err != nil {
+		fmt.Fprintln(os.Stderr, err)
+		return 2
+	}
+	var rf struct {
+		Harness string            `json:"harness"`
+		Pkg     string            `json:"pkg"`
+		Values  map[string]string `json:"values"`
+	}
+	if err := json.Unmarshal(data, &rf); err != nil {
+		fmt.Fprintln(os.Stderr, err)
+		return 2
+	}
+	r.Only = rf.Harness
+	r.activeGroups()
+	if err := r.buildOverlay(); err != nil {
+		fmt.Fprintln(os.Stderr, err)
+		return 2
+	}
+	defer os.RemoveAll(r.tmp)
+	if err := r.load(); err != nil {
+		fmt.Fprintln(os.Stderr, err)
+		return 2
+	}
+	fn := r.pkgs[rf.Pkg].Func(rf.Harness)
+	if fn == nil {
+		fmt.Fprintln(os.Stderr, "no harness", rf.Harness)
+		return 2
+	}
+	cfg := &interp.Config{Prog: r.prog, Harness: fn, MaxSteps: 50_000_000, MaxDecisions: 100000, TimeoutMS: 10000,
+		InitAllow: initAllow, Sizes: types.SizesFor("gc", "amd64"), Trace: r.Trace, Tier: r.tierNum()}
+	hr := &HarnessResult{Cfg: cfg}
+	res := r.concreteRun(hr, rf.Values)
+	if res == nil {
+		return 2
+	}
+	fmt.Printf("status=%s msg=%s\nreached=%v\nfailed=%v\nobserved=%v\n", res.Status, firstLines(res.Msg, 6), res.Reached, res.ConcreteFails, res.Observed)
+	if len(res.ConcreteFails) > 0 || res.Status == "panic" {
+		return 1
+	}
+	return 0
 }
